@@ -50,6 +50,49 @@ def timer_inv(cname, f):
     return t == 'F'
 
 
+def unique_ids(ctx, o):
+    """asset ids are unique across ALL classes: one counter, owned by class Asset, incremented by one per construction, copied into _id
+    (events are paused / cancelled by id, so two devices sharing an id would stop each other's timers)"""
+    P = ctx.P
+    A = P.cls('Asset')
+    init = P.method(A, '__init__')[1]
+    incs, ids = [], []
+    for x in ast.walk(init):
+        if isinstance(x, (ast.AugAssign, ast.Assign)):
+            tg = x.targets if isinstance(x, ast.Assign) else [x.target]
+            for t in tg:
+                if isinstance(t, ast.Attribute) and t.attr == '_id_counter':
+                    incs.append((x, t))
+                if is_self_attr(t, '_id'):
+                    ids.append(x)
+    o.count()
+    ok = len(incs) == 1 and len(ids) == 1
+    if ok:
+        x, t = incs[0]
+        owner = isinstance(t.value, ast.Name) and t.value.id == 'Asset'
+        N = Normalizer(P, A)
+        newv = N.norm(ast.BinOp(left=ast.Attribute(value=t.value, attr=t.attr, ctx=ast.Load()), op=x.op, right=x.value) if isinstance(x, ast.AugAssign) else x.value, {})
+        step = any(k.endswith('_id_counter') and v == 1 for k, v in newv.terms.items()) and newv.const == 1 and len(newv.terms) == 1
+        src = isinstance(ids[0], ast.Assign) and ast.unparse(ids[0].value) == 'Asset._id_counter' and ids[0].lineno > x.lineno
+        ok = owner and step and src
+    if not ok:
+        o.fail(P, 'Asset.__init__', 'Asset._id_counter += 1; self._id = Asset._id_counter',
+               'asset ids are not drawn from the single counter owned by class Asset (a counter reached through type(self) / cls is created per subclass on first write): '
+               'two devices of different classes can share an id, and pausing or cancelling the events of one stops the other', file=A.mod.path, line=init.lineno)
+    else:
+        o.witness('unique-ids')
+    for s_ in inv.attr_stores(P, '_id') + inv.attr_stores(P, '_id_counter'):
+        o.count()
+        if s_.func is None:
+            continue          # class attribute `_id_counter = 0`
+        if not (s_.cls is A and s_.func.name == '__init__'):
+            o.fail(P, s_.ctx, s_.stmt, 'an asset id / the id counter is written outside Asset.__init__', file=s_.mod.path, line=s_.line)
+    pg = P.lookup_prop(A, 'id', 'get')
+    o.count()
+    if not pg or ast.unparse(pg[1].body[-1]) != 'return self._id':
+        o.fail(P, 'Asset.id', 'return self._id', 'Asset.id does not report the id', file=A.mod.path, line=A.node.lineno)
+
+
 def check(ctx):
     P = ctx.P
     obs = []
@@ -272,8 +315,9 @@ def check(ctx):
         o.sample({'cases': [f'{e} (down={sd}) -> {sorted(w) or "nothing"}' for e, sd, w in cases]})
 
     # ---- C06.5 every device event carries the device id ----------------------------------------------
-    o = Ob('C06.5', 'K8', 'every schedule_event in an Asset subclass passes self.id; ResourceManager and Environment.run pass -1')
+    o = Ob('C06.5', 'K8', 'every schedule_event in an Asset subclass passes self.id; ResourceManager and Environment.run pass -1; ids are unique (one counter owned by Asset)')
     obs.append(o)
+    unique_ids(ctx, o)
     Asset = P.cls('Asset')
     nasset = 0
     for s in inv.method_calls(P, 'schedule_event'):
